@@ -7,18 +7,6 @@ import CprocVerif.Lemmas.InitRefMach3
 namespace CprocVerif.InitSim
 open CprocVerif.Init CprocVerif.Image CprocVerif.InitRef
 
-/-! ## classes of initialisers -/
-
-mutual
-  /-- no designators -/
-  def okI : Ini → Bool
-    | .expr _ => true
-    | .list its => okIs its
-  def okIs : Items → Bool
-    | .nil => true
-    | .cons ds i rest => ds.isEmpty && okI i && okIs rest
-end
-
 /-- `a` is a final segment of `b` -/
 inductive Suff : Items → Items → Prop
   | refl (a : Items) : Suff a a
@@ -29,11 +17,11 @@ theorem Suff.trans {a b c : Items} (h1 : Suff a b) (h2 : Suff b c) : Suff a c :=
   | refl => exact h1
   | tail ds i _ ih => exact .tail ds i ih
 
-theorem okIs_suff {a b : Items} (h : Suff a b) (hb : okIs b = true) : okIs a = true := by
+theorem noDesigs_suff {a b : Items} (h : Suff a b) (hb : noDesigs b = true) : noDesigs a = true := by
   induction h with
   | refl => exact hb
   | tail ds i _ ih =>
-    simp only [okIs, Bool.and_eq_true] at hb
+    simp only [noDesigs, Bool.and_eq_true] at hb
     exact ih hb.2
 
 /-- the reference returns a final segment of the items it was given -/
